@@ -12,19 +12,32 @@ RULE = ("the 23 strongly invertible diagrams of the built-in table (3_1 ... 7_7b
         "is defined, involutive and commutes with d mod 2); (sym) SymTngBuilder::build_kh_complex against the ordinary engine on the "
         "underlying knot and against the cube oracle; (cxh) d.d = 0 for the involutive complex over F2[H]; (ssi) ssi_invariants with "
         "c = H over F2[H] on the diagram, on the same diagram with the crossing list reordered, and on the mirror: s0 <= s1, "
-        "s0 = s1 mod 2, order independence, mirror = (-s1, -s0). non-trivial = every case (all diagrams have >= 3 crossings); "
+        "s0 = s1 mod 2, order independence, mirror = (-s1, -s0); (khw) builder option h_range: SymTngBuilder::new; set_h_range(a..=b); "
+        "preprocess; process_all; finalize; into_khi_complex, truncated to a+1..=b as in the repository's own h_range test, must satisfy "
+        "d.d = 0 and have in every interior degree a+2..=b-1 the same F2-dimensions (h = 0 and h = 1) as the unrestricted KhIComplex::new, "
+        "for every window of width 4 (thorough: 3, 4, 6) sliding over the whole support of the cone, from one degree below the lowest "
+        "cube degree up to the top (quick: every window for diagrams up to 7 crossings, a rotating quarter above); (khm) manual builder "
+        "schedules - auto_elim and/or auto_deloop switched off, preprocess; process_all; [eliminate_all;] finalize; [eliminate_all;] "
+        "into_khi_complex (7 schedules; quick: all of them up to 5 crossings, a rotating subset above) - must not panic, give d.d = 0 over F2 "
+        "(h = 0, 1) and F2[H], and the same F2-dimensions in every degree as the automatic schedule. non-trivial = every case (all diagrams have >= 3 crossings); "
         "distinct = distinct case lines")
 
 
 def relations(case, impl):
     kind = case.split()[0]
-    if "PANIC" in impl:
+    if "PANIC" in impl and kind not in ("khw", "khm"):
         return [("panic", "implementation panicked: " + impl[:100])]
     bad = []
     if kind == "sym" and not impl.startswith("SAME"):
         bad.append(("sym-kh", "symmetric construction without the involutive part differs from ordinary Khovanov homology: " + impl[:200]))
     if kind == "cxh" and impl != "OK":
         bad.append(("khi-dd", "involutive complex over F2[H] is not a complex"))
+    if kind == "khw" and not impl.startswith("same=1"):
+        bad.append(("khi-h-range", "involutive complex built with the builder option h_range differs from the unrestricted one inside the window "
+                    "(or the build panicked): " + impl[:300]))
+    if kind == "khm" and not impl.startswith("same=1"):
+        bad.append(("khi-schedule", "involutive complex built with a manual deloop/eliminate schedule is not a complex, differs from the automatic "
+                    "schedule, or the build panicked: " + impl[:300]))
     if kind == "ssi":
         m = re.match(r"K=(-?\d+),(-?\d+) SH=(-?\d+),(-?\d+) MIR=(-?\d+),(-?\d+)", impl)
         if not m:
